@@ -344,6 +344,46 @@ func (w *World) Deliver(m *Msg, keep bool) {
 	})
 }
 
+// starveReadyLoop is a schedule in which the group's ready loop (RaftGroup.run) runs only when nothing else can: messages
+// handed to the raft node pile up there before the loop takes the next Ready.
+type starveReadyLoop struct{}
+
+func (starveReadyLoop) Pick(s *vrt.Sched, alts []vrt.Alt, costs []int) int {
+	for i, a := range alts {
+		if a.T != nil && !strings.Contains(a.T.Name, "/group.go:") {
+			return i
+		}
+	}
+	return 0
+}
+
+// DeliverBurst hands several messages to one target back to back, the target's ready loop being the slow one: the raft
+// node has stepped all of them before the loop consumes the next Ready (a snapshot and the appends that follow it can
+// then arrive in ONE Ready).
+func (w *World) DeliverBurst(ms []*Msg) {
+	if len(ms) == 0 {
+		return
+	}
+	to := ms[0].To
+	for _, m := range ms {
+		w.remove(m)
+	}
+	n := w.node(to)
+	if n.Crashed || n.Transport == nil {
+		return
+	}
+	w.seq++
+	w.S.Spawn(fmt.Sprintf("n%d/deliver-burst#%d", to, w.seq), false, func() {
+		ctx, cancel := vctx.WithCancel(context.Background())
+		defer cancel()
+		for _, m := range ms {
+			n.Transport.Receive(ctx, m.Raw)
+		}
+	})
+	w.S.Run(starveReadyLoop{}, nil)
+	w.Quiesce()
+}
+
 func (w *World) remove(m *Msg) {
 	for i, x := range w.Net {
 		if x == m {
